@@ -10,7 +10,7 @@ from ..flow import strparts, show
 from ..fold import Folder, NotConst
 from ..loader import AnalysisError, ClassInfo, FuncInfo, Program, walk_shallow
 from ..report import Report
-from .cookie_common import DS, emitted, extract_writer
+from .cookie_common import DS, cookie_bytes_rule, emitted, extract_writer
 
 CTL = ["\n", "\r", "\0"]
 
@@ -340,7 +340,16 @@ def run(p: Program, rep: Report, tier: str) -> None:
                 rep.violation("R13.4", construct(sc, text=f"rebinds {show(e.a)[:50]}"), where(sc), "set_cookie rebinds the cookie list")
     if stored_ok and not stored_bad:
         rep.ok("R13.4", "set_cookie appends a Cookie(...) object")
-    rep.require_instances("R13.4", 3)
+    kind_, b_, _node, cons_, msg_ = cookie_bytes_rule(p)
+    if b_ is not None:
+        rep.analysed(b_.fq)
+    if kind_ == "ok":
+        rep.ok("R13.4", msg_)
+    elif kind_ == "undecided":
+        rep.undecide("R13.4", msg_)
+    else:
+        rep.violation("R13.4", construct(b_, text=cons_), where(b_), msg_)
+    rep.require_instances("R13.4", 4)
 
 
 def _is_backing(e: ast.AST, backing: Set[str]) -> bool:
